@@ -1058,6 +1058,52 @@ def compare_corr(ctx, post, outs):
                          np.asarray(impl[k]).tolist())
 
 
+def scale_covariance(ctx):
+    """the SAME mesh in other units (coordinates times a power of two: exact in floating point): F and DF scale by
+    the factor, detDF by its d-th power, invDF by its inverse, bit for bit - for affine and isoparametric
+    mappings, several points per cell, very small and very large units"""
+    import skfem
+    from skfem.mapping import MappingIsoparametric, MappingAffine
+    rng = ctx.rng
+    for rep in range(ctx.scale(10, 80)):
+        kind = rng.choice(["quad", "quad", "hex", "tri", "tet", "line"])
+        m, info = meshes.gen_first_order(rng, kind)
+        if m.nelements > 12:
+            continue
+        if kind in ("quad", "hex"):
+            pp = m.p.copy()
+            for v in range(pp.shape[1]):
+                pp[:, v] += np.array([rng.randint(-2, 2) for _ in range(pp.shape[0])]) / 64      # non-affine cells
+            m = type(m)(pp, m.t)
+        d = m.p.shape[0]
+        X = ref_points(rng, kind, 3)
+        for expo in (-30, -40, 30):
+            sfac = 2.0 ** expo
+            ms = type(m)(m.p * sfac, m.t)
+            for mname, mk in (("isoparametric", lambda mm: MappingIsoparametric(mm, mm.elem(), mm.bndelem)),
+                              ("default", lambda mm: mm._mapping())):
+                try:
+                    a, b_ = mk(m), mk(ms)
+                    ctx.count("scale-covariance:" + mname)
+                    checks = (("F", a.F(X) * sfac, b_.F(X)), ("DF", a.DF(X) * sfac, b_.DF(X)),
+                              ("detDF", a.detDF(X) * sfac ** d, b_.detDF(X)),
+                              ("invDF", a.invDF(X) / sfac, b_.invDF(X)))
+                    for fn_, want, got in checks:
+                        want, got = np.asarray(want), np.asarray(got)
+                        if want.shape != got.shape or not np.allclose(got, want, rtol=1e-12, atol=0.0):
+                            ctx.violation(f"{fn_} of the mesh in other units (coordinates x 2^{expo}) is not the scaled "
+                                          f"{fn_} of the mesh", {"mesh": meshes.mesh_descr(m), "mapping": mname,
+                                                                 "factor": f"2^{expo}", "X": X.tolist(),
+                                                                 "relative_error": float(np.abs(got - want).max()
+                                                                                         / max(1e-300, np.abs(want).max()))},
+                                          {"what": "scale-covariance", "fn": fn_, "mapping": mname, "kind": kind})
+                            break
+                except Exception as ex:
+                    ctx.violation("mapping of a rescaled mesh raised " + exc_kind(ex),
+                                  {"mesh": meshes.mesh_descr(m), "factor": f"2^{expo}", "err": repr(ex)},
+                                  {"what": "raise", "mapping": mname})
+
+
 def shape_and_key_corr(ctx):
     """model of the output sizing (F16) and of the cache key (F11) against the implementation's behaviour"""
     from skfem import MeshQuad
@@ -1232,5 +1278,9 @@ def run(ctx):
     outs = ctx.driver.run(reqs)
     compare_corr(ctx, post, outs)
     shape_and_key_corr(ctx)
+    try:
+        scale_covariance(ctx)
+    except Exception as ex:
+        ctx.violation("scale covariance check raised " + exc_kind(ex), {"err": repr(ex)}, {"what": "raise"})
     if ctx.tier == "thorough" and not getattr(ctx, "no_lean", False):
         ctx.leanchecker(["SkfemVerif.Props.C10"])
